@@ -26,10 +26,11 @@ func SAbs() *Supergraph {
 			{Name: "related", Type: "[Hit!]"},
 		}},
 		{Name: "Hit", Kind: "union", Members: []string{"Author", "Book"}},
-		{Name: "Media", Kind: "interface", Fields: []Field{{Name: "title", Type: "String"}}},
+		{Name: "Media", Kind: "interface", Fields: []Field{{Name: "title", Type: "String"}, {Name: "by", Type: "Author"}}},
 		{Name: "Clip", Kind: "object", Implements: []string{"Media"}, Fields: []Field{
 			{Name: "title", Type: "String"},
 			{Name: "secs", Type: "Int"},
+			{Name: "by", Type: "Author"},
 		}},
 		{Name: "Post", Kind: "object", Implements: []string{"Media"}, Fields: []Field{
 			{Name: "title", Type: "String"},
@@ -44,7 +45,7 @@ func SAbsUniverse(s *Supergraph) *Universe {
 	a2 := Obj{"__typename": "Author", "id": "a2", "name": nil}
 	b1 := Obj{"__typename": "Book", "id": "b1", "title": "Earthsea", "author": a1}
 	b2 := Obj{"__typename": "Book", "id": "b2", "title": "Orphan", "author": nil}
-	c1 := Obj{"__typename": "Clip", "title": "trailer", "secs": 30}
+	c1 := Obj{"__typename": "Clip", "title": "trailer", "secs": 30, "by": a2}
 	p1 := Obj{"__typename": "Post", "title": nil, "text": "hello", "by": a1}
 	p2 := Obj{"__typename": "Post", "title": "broken", "text": nil, "by": a2} // non-null null
 	a1["books"] = []any{b1, nil}
@@ -91,8 +92,13 @@ func SReq() *Supergraph {
 			{Name: "dims", Type: "Dims"},
 			{Name: "shipping", Type: "String", Requires: "price weight"},
 			{Name: "volume", Type: "String", Requires: "dims { w h }"},
+			{Name: "summary", Type: "String", Requires: "volume"},
+			{Name: "spec", Type: "Spec!"},
+			{Name: "parts", Type: "[Part!]!"},
 			{Name: "maker", Type: "Maker"},
 		}},
+		{Name: "Spec", Kind: "object", Fields: []Field{{Name: "code", Type: "String!"}, {Name: "note", Type: "String"}}},
+		{Name: "Part", Kind: "object", Fields: []Field{{Name: "no", Type: "Int!"}, {Name: "item", Type: "Item"}}},
 		{Name: "Dims", Kind: "object", Fields: []Field{{Name: "w", Type: "Int!"}, {Name: "h", Type: "Int"}}},
 		{Name: "Maker", Kind: "object", Keys: []Key{{Fields: "info { a b }"}}, Fields: []Field{
 			{Name: "info", Type: "Info!", Key: true},
@@ -112,9 +118,14 @@ func SReq() *Supergraph {
 func SReqUniverse(s *Supergraph) *Universe {
 	m1 := Obj{"__typename": "Maker", "info": Obj{"__typename": "Info", "a": "acme", "b": 1}, "label": "ACME"}
 	m2 := Obj{"__typename": "Maker", "info": Obj{"__typename": "Info", "a": "acme", "b": 2}, "label": nil}
-	i1 := Obj{"__typename": "Item", "id": "i1", "sku": "s-1", "price": 10, "weight": 3, "dims": Obj{"__typename": "Dims", "w": 2, "h": 5}, "maker": m1}
-	i2 := Obj{"__typename": "Item", "id": "i2", "sku": "s-2", "price": 20, "weight": nil, "dims": nil, "maker": m2}
-	i3 := Obj{"__typename": "Item", "id": "i3", "sku": "s-3", "price": 10, "weight": 3, "dims": Obj{"__typename": "Dims", "w": 1, "h": nil}, "maker": nil}
+	i1 := Obj{"__typename": "Item", "id": "i1", "sku": "s-1", "price": 10, "weight": 3, "dims": Obj{"__typename": "Dims", "w": 2, "h": 5}, "maker": m1,
+		"spec": Obj{"__typename": "Spec", "code": "c1", "note": "n1"}}
+	i2 := Obj{"__typename": "Item", "id": "i2", "sku": "s-2", "price": 20, "weight": nil, "dims": nil, "maker": m2,
+		"spec": Obj{"__typename": "Spec", "code": "c2", "note": nil}, "parts": []any{}}
+	i3 := Obj{"__typename": "Item", "id": "i3", "sku": "s-3", "price": 10, "weight": 3, "dims": Obj{"__typename": "Dims", "w": 1, "h": nil}, "maker": nil,
+		"spec": Obj{"__typename": "Spec", "code": "c3", "note": "n3"}}
+	i1["parts"] = []any{Obj{"__typename": "Part", "no": 1, "item": i2}, Obj{"__typename": "Part", "no": 2, "item": nil}}
+	i3["parts"] = []any{Obj{"__typename": "Part", "no": 3, "item": i1}}
 	m1["items"] = []any{i1, i3, i1}
 	m2["items"] = []any{i2, nil}
 	b1 := Obj{"__typename": "Box", "id": "x", "sku": "k1", "size": 1, "content": i1}
